@@ -29,19 +29,12 @@ import (
 )
 
 var (
-	c06Srv  *hsServer
 	c06Last *hsRun
 )
 
-type c06Case struct {
-	D     hsDraws
-	S     hsSecrets
-	Pad16 []byte
-}
-
 func c06BigHex(x *big.Int) string { return hexD(x.Bytes()) }
 
-func (c *c06Case) op(tag string) string {
+func (c *hsCase) op(tag string) string {
 	var xf []string
 	for _, f := range c.S.ExtraFps {
 		xf = append(xf, strconv.FormatUint(f, 10))
@@ -58,12 +51,12 @@ func (c *c06Case) op(tag string) string {
 		hexD(c.S.Pad), min, showList(xf)}, " ")
 }
 
-func c06Parse(op []string) (*c06Case, bool) {
+func c06Parse(op []string) (*hsCase, bool) {
 	if len(op) != 20 {
 		return nil, false
 	}
 	defer func() { _ = recover() }()
-	c := &c06Case{}
+	c := &hsCase{}
 	ok := false
 	func() {
 		defer func() {
@@ -109,48 +102,9 @@ func c06Parse(op []string) (*c06Case, bool) {
 	return c, ok
 }
 
-// c06Random: a conformant server's secrets and a client's draws from the run's PRNG.
-func c06Random(r *Rand, key *rsa.PrivateKey) *c06Case {
-	c := &c06Case{}
-	c.D.Nonce = r.Bytes(16)
-	c.D.NewNonce = r.Bytes(32)
-	c.D.B = r.Bytes(256)
-	c.D.PadSeed = int64(r.U64() >> 1)
-	c.S.Key = key
-	c.S.ServerNonce = r.Bytes(16)
-	// the client's Pollard-rho (big.Int, bit-serial multiplication) costs ~0.3 s on a 63-bit product:
-	// full-size primes in one exchange out of eight, 12..28 bits otherwise
-	bits := func() int {
-		if r.Intn(8) == 0 {
-			return 32
-		}
-		return 12 + r.Intn(17)
-	}
-	p, q := hsPrime32(r, bits()), hsPrime32(r, bits())
-	for p == q {
-		q = hsPrime32(r, bits())
-	}
-	if p > q {
-		p, q = q, p
-	}
-	c.S.P, c.S.Q = p, q
-	c.S.G = int32(2 + r.Intn(6))
-	c.S.A = new(big.Int).SetBytes(r.Bytes(256))
-	c.S.DhPrime = hsTelegramPrime()
-	c.S.ServerTime = int32(1600000000 + r.Intn(100000000))
-	c.S.Pad = r.Bytes(16)
-	c.S.Minimal = r.Intn(3) == 0
-	if r.Intn(3) == 0 {
-		for i := r.Intn(3) + 1; i > 0; i-- {
-			c.S.ExtraFps = append(c.S.ExtraFps, r.U64())
-		}
-	}
-	return c
-}
-
 // c06ForceCorner: rejection sampling of the free secrets until the named value has exactly z
 // leading zero bytes in its fixed-width form.
-func c06ForceCorner(r *Rand, c *c06Case, field string, z int) bool {
+func c06ForceCorner(r *Rand, c *hsCase, field string, z int) bool {
 	P := c.S.DhPrime
 	g := big.NewInt(int64(c.S.G))
 	lz := func(x *big.Int) int { return hsLeadingZeros(hsFixed(x, 256)) }
@@ -218,7 +172,7 @@ func c06Gen(g *G) {
 	key := hsKeyGen(r)
 	// (a) honest exchanges: every g, fixed-width and minimal integers, extra fingerprints
 	for gv := 2; gv <= 7; gv++ {
-		c := c06Random(r, key)
+		c := hsRandomCase(r, key)
 		c.S.G = int32(gv)
 		c.S.Minimal = gv%2 == 1
 		g.Emit(c.op(fmt.Sprintf("honest:g%d", gv)), "honest")
@@ -226,7 +180,7 @@ func c06Gen(g *G) {
 	// (b) every field through its leading-zero corners
 	for _, f := range c06Fields {
 		for z := 0; z <= 2; z++ {
-			c := c06Random(r, key)
+			c := hsRandomCase(r, key)
 			if !c06ForceCorner(r, c, f, z) {
 				g.Extra["corner-not-forced:"+f+":"+strconv.Itoa(z)] = true
 				continue
@@ -236,20 +190,20 @@ func c06Gen(g *G) {
 	}
 	// (c) all-zero / all-one edge values of the free secrets
 	{
-		c := c06Random(r, key)
+		c := hsRandomCase(r, key)
 		c.D.Nonce = make([]byte, 16)
 		g.Emit(c.op("edge:nonce-zero"), "edge")
-		c = c06Random(r, key)
+		c = hsRandomCase(r, key)
 		c.S.ServerNonce = make([]byte, 16)
 		g.Emit(c.op("edge:server_nonce-zero"), "edge")
-		c = c06Random(r, key)
+		c = hsRandomCase(r, key)
 		c.D.NewNonce = make([]byte, 32)
 		c.D.NewNonce[31] = 1
 		g.Emit(c.op("edge:new_nonce-one"), "edge")
-		c = c06Random(r, key)
+		c = hsRandomCase(r, key)
 		c.S.P, c.S.Q = 65537, 4294967291
 		g.Emit(c.op("edge:pq-unbalanced"), "edge")
-		c = c06Random(r, key)
+		c = hsRandomCase(r, key)
 		c.S.P, c.S.Q = 4294967279, 4294967291
 		g.Emit(c.op("edge:pq-largest"), "edge")
 	}
@@ -264,7 +218,7 @@ func c06Gen(g *G) {
 		if i%2 == 1 {
 			k = key2
 		}
-		g.Emit(c06Random(r, k).op("honest:random"), "honest")
+		g.Emit(hsRandomCase(r, k).op("honest:random"), "honest")
 	}
 }
 
@@ -277,7 +231,7 @@ func c06Exec(op []string) string {
 	if !ok {
 		return "bad-op"
 	}
-	run := hsExchange(c06Srv, &c.D, &c.S.Key.PublicKey, &c.S, nil, true)
+	run := hsExchange(&c.D, &c.S.Key.PublicKey, &c.S, nil, true)
 	if len(run.Srv.Enc) > 0 && run.Srv.AuthKey != nil {
 		salt, body, why := hsOpenClientFrame(run.Srv.AuthKey, run.Srv.Enc[0])
 		if why != "" {
@@ -364,11 +318,9 @@ func c06Judge(op []string, out string) string {
 
 func init() {
 	register(&Prop{
-		Name:     "c06",
-		Gen:      c06Gen,
-		Exec:     c06Exec,
-		Judge:    c06Judge,
-		Setup:    func(g *G) { c06Srv = hsListen() },
-		Teardown: func() { c06Srv.Close() },
+		Name:  "c06",
+		Gen:   c06Gen,
+		Exec:  c06Exec,
+		Judge: c06Judge,
 	})
 }
